@@ -128,9 +128,16 @@ def analyse_walk(program, rep, f, world):
     if found is None:
         return False
     loop, wl, seed = found
+    in_f = any(x is loop for x in ast.walk(f.node))
+    # the walk reports something per visited type: it yields (itself, or -
+    # when it lives in a generator helper - through a consumer that yields
+    # or accumulates per visit)
     has_effect = any(isinstance(x, (ast.Yield, ast.YieldFrom))
-                     for x in ast.walk(loop)) and any(
-        x is loop for x in ast.walk(f.node))
+                     for x in ast.walk(loop)) and (in_f or any(
+        isinstance(x, (ast.Yield, ast.YieldFrom)) or (
+            isinstance(x, ast.Call) and isinstance(x.func, ast.Attribute)
+            and x.func.attr in ('append', 'extend'))
+        for x in ast.walk(f.node)))
     w = Walker(program, _NoInline(program))
     exits = w.run(f, world)
     rep.count('paths', len(exits))
@@ -312,7 +319,104 @@ def analyse_walk(program, rep, f, world):
     return True
 
 
+QUERIES = ('get', 'get_component', 'get_components', 'has_component',
+           'get_processor', 'entity_exists')
+WORLD_TABLES = ('_entities', '_components', '_processors',
+                '_sorted_processors')
+
+
+def _self_writes(m):
+    """{attr: node} for the attributes of self this method stores into,
+    deletes from, rebinds or mutates through a mutator method."""
+    from dlint.walk import MUTATORS
+    out = {}
+    def base_attr(n):
+        while isinstance(n, ast.Subscript):
+            n = n.value
+        if isinstance(n, ast.Attribute) and isinstance(
+                n.value, ast.Name) and n.value.id == 'self':
+            return n.attr
+        return None
+    for s in ast.walk(m.node):
+        tg = []
+        if isinstance(s, ast.Assign):
+            tg = [t for tt in s.targets for t in (
+                tt.elts if isinstance(tt, ast.Tuple) else [tt])]
+        elif isinstance(s, (ast.AugAssign, ast.AnnAssign)):
+            tg = [s.target]
+        elif isinstance(s, ast.Delete):
+            tg = s.targets
+        elif isinstance(s, ast.Call) and isinstance(s.func, ast.Attribute) \
+                and s.func.attr in MUTATORS:
+            tg = [s.func.value]
+        for t in tg:
+            a = base_attr(t)
+            if a is not None:
+                out.setdefault(a, s)
+    return out
+
+
+def check_query_memo(program, rep):
+    """A query may only remember an answer in an attribute of the world if
+    every method that changes the tables forgets it again."""
+    from .util import methods_of, called_only_from
+    world = program.cls('World')
+    meths = methods_of(program, world)
+    qset, _ = called_only_from(meths, set(QUERIES) & set(meths))
+    qset -= {'process'}
+    mutators = {}
+    for name, ms in meths.items():
+        if name in qset or name == '__init__':
+            continue
+        for m in ms:
+            wr = _self_writes(m)
+            if any(t in wr for t in WORLD_TABLES):
+                mutators[name] = (m, wr)
+    n = 0
+    for name in sorted(qset):
+        for m in meths.get(name, []):
+            n += 1
+            wr = _self_writes(m)
+            bad = None
+            for attr, node in wr.items():
+                if attr in WORLD_TABLES:
+                    bad = (node, f'the query {m.qualname} modifies the table '
+                           f'self.{attr}')
+                    break
+                missing = sorted(k for k, (mm, w2) in mutators.items()
+                                 if attr not in w2)
+                if missing:
+                    bad = (node, f'the query {m.qualname} remembers answers '
+                           f'in self.{attr}, but {", ".join(missing)} '
+                           'change(s) the tables without forgetting them: a '
+                           'later query is answered from the memo - an object '
+                           'of exactly the queried type added meanwhile is '
+                           'not preferred (or a removed one is still '
+                           'reported)')
+                    break
+            rep.check(bad is None, 'C06.memo', m.where,
+                      bad[0] if bad else m.node.name,
+                      'the query keeps no state of its own (or every table '
+                      'mutator invalidates it)', bad[1] if bad else '',
+                      line=getattr(bad[0], 'lineno', None) if bad
+                      else m.node.lineno)
+    rep.floor('C06.memo', 'query methods of World', n, 5)
+
+
+def check_index(program, rep):
+    """get(T) reads the type index: a component attached by add_component
+    must be filed in the index entry the table holds (C01's rule for stale
+    references to rows / owner sets)."""
+    from rules import c01
+    rep.borrow(c01.analyse_writers, program, rep, {'add_component'},
+               keep=lambda o: o.rule == 'C01.atomic',
+               rename=lambda r: 'C06.index',
+               why='a matching component is not reported by get(T)')
+
+
 def run(program, rep, tier):
+    check_query_memo(program, rep)
+    check_index(program, rep)
     _NoInline.loop_bound = 5 if tier == 'thorough' else 3
     rep.extra['loop_bound'] = _NoInline.loop_bound
     world = program.cls('World')
@@ -334,6 +438,21 @@ def run(program, rep, tier):
                         target = g
         if find_walk(target) is None and find_walk_via_generator(
                 program, target, world) is None:
+            isub = [n for n in ast.walk(f.node) if isinstance(n, ast.Call)
+                    and dotted(n.func) in ('issubclass', 'isinstance')
+                    and len(n.args) == 2 and isinstance(n.args[1], ast.Name)
+                    and n.args[1].id in f.params()]
+            if isub:
+                rep.bad('C06.match', f.where, isub[0],
+                        f'{f.node.name} decides by {dotted(isub[0].func)}() '
+                        'against the queried type instead of walking '
+                        '__subclasses__() like its sibling queries: virtual '
+                        'subclasses (ABC.register, __subclasshook__) match '
+                        'here and nowhere else - the queries disagree, and '
+                        'objects that are not subclasses are matched',
+                        line=isub[0].lineno)
+                covered += 1
+                continue
             rep.inconclusive('C06.cover', f.where, f.node.name,
                              'no subclass walk (work list seeded with the '
                              'queried type and extended with '
